@@ -103,6 +103,51 @@ class backend:
         BACKEND[0] = self.old
 
 
+TYPES = [None]     # {parameter name: type tag} applied by `mk` to the constructor arguments of the point being measured
+TYPE_TAGS = ("float32", "float16", "float64", "int", "int64", "int32")
+
+
+def cast(v, tag):
+    if tag is None or tag == "float":
+        return v
+    if tag == "int":
+        return int(v)
+    return getattr(np, tag)(v)
+
+
+def quantise(v, tag):
+    """the python float (the exact real number) the parameter has once it is given in type `tag`, or None when the value
+    is not representable there (overflow, underflow to 0, non-integral for an integer type)"""
+    if tag in (None, "float", "float64"):
+        return float(v)
+    if not math.isfinite(v):
+        return None
+    if tag in ("int", "int64", "int32"):
+        q = round(v)
+        if q != v and not (abs(v) >= 1 and abs(q - v) <= 0.5):
+            return None
+        if abs(q) >= (2 ** 31 if tag == "int32" else 2 ** 53):
+            return None
+        return float(q)
+    with np.errstate(all="ignore"):
+        q = float(getattr(np, tag)(v))
+    if not math.isfinite(q) or (q == 0) != (v == 0):
+        return None
+    return q
+
+
+class typed:
+    def __init__(self, types):
+        self.types = types
+
+    def __enter__(self):
+        self.old = TYPES[0]
+        TYPES[0] = self.types
+
+    def __exit__(self, *a):
+        TYPES[0] = self.old
+
+
 FACTORY = {}       # class name -> callable used INSTEAD of the constructor (a live object, see `Live`)
 
 
@@ -113,6 +158,8 @@ def mk(cls, params, **kw):
     if f is not None:
         return f(**kw)
     c = getattr(M, name)
+    if TYPES[0]:
+        params = {k: cast(v, TYPES[0].get(k)) for k, v in params.items()}
     return quiet(c, **params, **kw)       # overflow / divide warnings of extreme parameters are not the subject here
 
 
@@ -461,17 +508,19 @@ def fmt(x):
 
 class Point:
     """one parameter point of one mechanism"""
-    __slots__ = ("mech", "params", "meas", "lines", "note")
+    __slots__ = ("mech", "params", "meas", "lines", "note", "types")
 
-    def __init__(self, mech, params):
+    def __init__(self, mech, params, types=None):
         self.mech = mech
-        self.params = params
+        self.params = params          # the exact real numbers (python floats / ints), what the model sees
+        self.types = types or None    # {name: tag}: the TYPE in which each is handed to the constructor (default: as is)
         self.meas = None
         self.lines = []
         self.note = None
 
     def key(self):
-        return (self.mech,) + tuple(sorted((k, f2b(v) if isinstance(v, float) else v) for k, v in self.params.items()))
+        return (self.mech,) + tuple(sorted((k, f2b(v) if isinstance(v, float) else v) for k, v in self.params.items())) \
+            + (tuple(sorted(self.types.items())) if self.types else ())
 
 
 # =========================================================================================== per-mechanism logic
@@ -502,6 +551,10 @@ def report(ctx, pt, sig, kind, measured, allowed, extra):
         what = (f"live object: {pt.mech}({pt.note['live']['constructed_with']}) -> {pt.note['live']['warm_up']} -> assign "
                 f"{pt.note['live']['assigned']} -> randomise still uses the old calibration: " + what)
         extra = {"case": extra_json(extra), "live": pt.note["live"]}
+    if pt.types:
+        sig += ":typed-parameters"
+        what = (f"with the parameters given as {pt.types} (same real numbers): " + what)
+        extra = {"case": extra_json(extra), "types": pt.types}
     if isinstance(pt.note, dict) and pt.note.get("backend") == "numpy":
         sig += ":numpy-backend"
         what = "with random_state = a numpy RandomState (the `except AttributeError/TypeError` branch of randomise): " + what
@@ -1169,6 +1222,30 @@ FIXED = [
 ]
 
 
+# narrow-type quotients that round DOWN (less noise than the double-precision calibration of the same real parameters)
+FIXED_TYPED = [
+    ("LaplaceBoundedNoise", {"epsilon": 50.0, "delta": 1e-9, "sensitivity": 1.0}, {"sensitivity": "float32"}),
+    ("LaplaceBoundedNoise", {"epsilon": 50.0, "delta": 1e-9, "sensitivity": 0.1}, {"sensitivity": "float16"}),
+    ("LaplaceBoundedNoise", {"epsilon": 3.0, "delta": 1e-6, "sensitivity": 1.0}, {"sensitivity": "float32", "epsilon": "float32"}),
+    ("Snapping", {"epsilon": 1.0, "sensitivity": 0.001, "lower": 0.0, "upper": 1e11}, {"sensitivity": "float32"}),
+    ("Snapping", {"epsilon": 1.0, "sensitivity": 1.0, "lower": 0.0, "upper": 1e9}, {"lower": "float32", "upper": "float32"}),
+    ("Gaussian", {"epsilon": 0.3, "delta": 1e-6, "sensitivity": 0.7}, {"sensitivity": "float32"}),
+    ("GaussianAnalytic", {"epsilon": 7.0, "delta": 1e-6, "sensitivity": 0.7}, {"sensitivity": "float32", "epsilon": "float32"}),
+    ("Laplace", {"epsilon": 0.3, "delta": 0.0, "sensitivity": 0.7}, {"sensitivity": "float32", "epsilon": "float16"}),
+    ("Uniform", {"delta": 0.3, "sensitivity": 0.7}, {"sensitivity": "float32", "delta": "float32"}),
+    ("Staircase", {"epsilon": 3.0, "sensitivity": 0.7, "gamma": 0.3}, {"sensitivity": "float32", "gamma": "float32"}),
+    ("LaplaceTruncated", {"epsilon": 3.0, "delta": 0.0, "sensitivity": 0.7, "lower": 0.1, "upper": 0.9},
+     {"lower": "float32", "upper": "float32", "sensitivity": "float32"}),
+    ("LaplaceFolded", {"epsilon": 3.0, "delta": 0.0, "sensitivity": 0.7, "lower": 0.1, "upper": 0.9},
+     {"lower": "float32", "upper": "float16"}),
+    ("LaplaceBoundedDomain", {"epsilon": 3.0, "delta": 0.0, "sensitivity": 0.7, "lower": 0.1, "upper": 0.9},
+     {"lower": "float32", "upper": "float32"}),
+    ("LaplaceBoundedDomain", {"epsilon": 50.0, "delta": 0.0, "sensitivity": 0.3, "lower": 0.0, "upper": 0.1},
+     {"lower": "float32", "upper": "float32", "sensitivity": "float32"}),
+    ("GaussianDiscrete", {"epsilon": 1.0, "delta": 1e-3, "sensitivity": 2}, {"sensitivity": "int64", "epsilon": "float32"}),
+]
+
+
 def tiny_ratio(r, mech, p):
     """move a parameter point into the region sensitivity / epsilon in [1e-15, 1e-7] — tiny sensitivity with an ordinary
     epsilon, ordinary sensitivity with a huge epsilon (up to 1e9), or both — where only sensitivity == 0 (or epsilon == inf)
@@ -1206,12 +1283,55 @@ def tiny_ratio(r, mech, p):
     return p
 
 
+VALID = {
+    # constraints a quantised parameter set must still satisfy (else that parameter stays a double)
+    "Gaussian": lambda p: 0 < p["epsilon"] <= 1 and 0 < p["delta"] < 1,
+    "GaussianAnalytic": lambda p: p["epsilon"] > 0 and 0 < p["delta"] < 1,
+    "GaussianDiscrete": lambda p: p["epsilon"] > 0 and 0 < p["delta"] < 1,
+    "LaplaceBoundedNoise": lambda p: p["epsilon"] > 0 and 0 < p["delta"] < 0.5,
+    "Uniform": lambda p: 0 < p["delta"] <= 0.5,
+    "Staircase": lambda p: p["epsilon"] > 0 and 0 <= p.get("gamma", 0.5) <= 1,
+    "Snapping": lambda p: p["epsilon"] > 1e-6 and p["lower"] <= p["upper"],
+}
+
+
+def type_dimension(r, mech, p):
+    """(params', types): the same mechanism with each parameter handed over in a randomly chosen numeric type — numpy
+    float32 / float16 / float64, python int, numpy integer, python float.  The value is QUANTISED to that type first, so
+    that `params'` (python floats) are exactly the real numbers the implementation receives and the model sees."""
+    q = dict(p)
+    types = {}
+    for k in sorted(p):
+        if k not in ("epsilon", "delta", "sensitivity", "lower", "upper", "gamma"):
+            continue
+        if mech == "GaussianDiscrete" and k == "sensitivity":
+            tag = r.choice(["int", "int64", "int32"])
+        else:
+            tag = r.choice(["float32", "float32", "float16", "float64", "int", "int64", "float"])
+        if tag == "float":
+            continue
+        v = quantise(p[k], tag)
+        if v is None:
+            continue
+        trial = dict(q)
+        trial[k] = int(v) if (mech == "GaussianDiscrete" and k == "sensitivity") else v
+        ok = trial.get("lower", 0) <= trial.get("upper", 0) if "lower" in trial else True
+        ok = ok and trial.get("epsilon", 1) + trial.get("delta", 0) > 0 and trial.get("delta", 0) < 1
+        if ok and VALID.get(mech, lambda _: True)(trial):
+            q = trial
+            types[k] = tag
+    return q, types
+
+
 def gen_points(ctx, n):
     r = ctx.fork("points")
     names = list(MECHS)
     weights = [MECHS[k][5] for k in names]
     tot = sum(weights)
     pts = [Point(m, dict(p)) for m, p in FIXED]
+    for m, p, t in FIXED_TYPED:
+        q = {k: (quantise(v, t.get(k)) if isinstance(v, float) else v) for k, v in p.items()}
+        pts.append(Point(m, q, dict(t)))
     n_dg_huge = 0
     for _ in range(n):
         x = r.u01() * tot
@@ -1233,7 +1353,10 @@ def gen_points(ctx, n):
                     pts.append(Point(nm, p))
                     continue
             p = tiny_ratio(rr, nm, p)
-        pts.append(Point(nm, p))
+        types = None
+        if rr.chance(0.25):
+            p, types = type_dimension(rr, nm, p)
+        pts.append(Point(nm, p, types))
     return pts
 
 
@@ -1268,17 +1391,55 @@ def erf_correspondence(ctx):
     ctx.note(f"erfc model vs math.erfc: worst relative difference {worst:.3g} over {len(ys)} points")
 
 
+def typed_direct(ctx, pt, dseed):
+    """direct check of a point whose parameters were handed over in narrow / integer types.  A violation is attributed:
+    if it disappears once only `lower` / `upper` are given as doubles again, the cause is that the BOUNDS are kept (and
+    computed with) in their narrow type — signature `C02:<Mech>:narrow-type-bounds`; otherwise `…:typed-parameters`."""
+    from ..core import Ctx
+    sc = Ctx(PROPERTY, ctx.tier, 0)
+    MECHS[pt.mech][4](sc, pt, gen.SplitMix64(dseed))
+    ctx.count("divergences", sc.counters.get("divergences", 0))
+    if not sc.violations:
+        return
+    sig_override = None
+    rest = {k: t for k, t in pt.types.items() if k not in ("lower", "upper")}
+    if len(rest) < len(pt.types):
+        pt2 = Point(pt.mech, pt.params, rest or None)
+        try:
+            with typed(pt2.types):
+                MECHS[pt.mech][1](pt2)
+            sc2 = Ctx(PROPERTY, ctx.tier, 0)
+            MECHS[pt.mech][4](sc2, pt2, gen.SplitMix64(dseed))
+            if not sc2.violations:
+                sig_override = f"C02:{pt.mech}:narrow-type-bounds"
+        except Exception:  # noqa
+            pass
+    for v in sc.violations[:2]:
+        sig = sig_override or v["signature"]
+        n = ctx.counters.get("sig:" + sig, 0)
+        ctx.count("sig:" + sig)
+        if n < 5:
+            ctx.violation(sig, v["what"], v["data"])
+
+
 def run_points(ctx, pts):
     r = ctx.fork("direct")
     # measure on the implementation
     good = []
     for pt in pts:
         try:
-            MECHS[pt.mech][1](pt)
+            with typed(pt.types):
+                MECHS[pt.mech][1](pt)
         except seams.ScriptExhausted as e:
             ctx.disagree(f"calibration.{pt.mech}.measure", pt.params, "scripted randomness exhausted", str(e))
             continue
         except (ArithmeticError, ValueError, TypeError, RecursionError) as e:
+            if pt.types:
+                # e.g. a float16 bound makes `upper - lower` overflow in float16 and Snapping refuses "infinite" bounds:
+                # a refusal releases nothing; counted, the narrow-type computation itself is reported where it calibrates
+                ctx.count("typed_parameters_refused")
+                ctx.note(f"typed {pt.mech} {pt.types} {pt.params}: {type(e).__name__}: {e}")
+                continue
             # admissible parameters: the implementation must calibrate, not raise
             ctx.disagree(f"calibration.{pt.mech}.raises", pt.params, "a calibration", f"{type(e).__name__}: {e}")
             continue
@@ -1291,6 +1452,24 @@ def run_points(ctx, pts):
         lines += ls
     outs = leanio.run_driver("Continuous", lines) if lines else []
     for pt, (a, n) in zip(good, spans):
+        if pt.types:
+            # parameters handed over in a narrow / integer type: the model (double-precision calibration of the same real
+            # numbers) is the REFERENCE, not a transcription of what the code does in that type; a difference is counted
+            # and the direct check below decides whether the calibration in use is still on the private side
+            from ..core import Ctx
+            sc = Ctx(PROPERTY, ctx.tier, 0)
+            try:
+                okt = MECHS[pt.mech][3](sc, pt, outs[a:a + n])
+            except (TypeError, ValueError, IndexError):
+                okt = False
+            if okt and not sc.disagreements:
+                ctx.trace_ok()
+            else:
+                ctx.count("typed_calibration_differs_from_double")
+                if sc.disagreements:
+                    dd = sc.disagreements[0]
+                    ctx.note(f"typed {pt.mech} {pt.types}: {dd['unit']} double-precision {dd['model']!r}, in use {dd['impl']!r}")
+            continue
         try:
             ok = MECHS[pt.mech][3](ctx, pt, outs[a:a + n])
         except (TypeError, ValueError, IndexError) as e:
@@ -1302,15 +1481,18 @@ def run_points(ctx, pts):
     for i, pt in enumerate(good):
         sens = pt.params.get("sensitivity", 0)
         ctx.case(pt.key() if sens else None)
+        if pt.types:
+            typed_direct(ctx, pt, r.fork(i).next())
+            continue
         MECHS[pt.mech][4](ctx, pt, r.fork(i))
     # the same calibration must be in force on the numpy back-end (int seed / RandomState: the other branch of randomise)
     for i, pt in enumerate(good):
         if pt.mech not in NUMPY_BACKEND_MECHS or i % 2:
             continue
-        pt2 = Point(pt.mech, pt.params)
+        pt2 = Point(pt.mech, pt.params, pt.types)
         pt2.note = {"backend": "numpy"}
         try:
-            with backend("numpy"):
+            with backend("numpy"), typed(pt.types):
                 MECHS[pt.mech][1](pt2)
         except seams.ScriptExhausted:
             ctx.count("numpy_backend_unmeasurable")
@@ -1519,13 +1701,17 @@ def replay(ctx, data):
         live_case(ctx, dd["mech"], p1, asg, int(lv["warm_seed"]), list(lv["ops"]), int(lv["dseed"]))
         return ctx.counters.get("violations_raw", 0) > before
     pt = Point(dd["mech"], params)
+    if isinstance(case, dict) and "types" in case:
+        pt.types = dict(case["types"])
+        case = case.get("case")
     if isinstance(case, dict) and case.get("backend") == "numpy":
         pt.note = {"backend": "numpy"}
-        with backend("numpy"):
+        with backend("numpy"), typed(pt.types):
             MECHS[pt.mech][1](pt)
         case = case.get("case")
     else:
-        MECHS[pt.mech][1](pt)
+        with typed(pt.types):
+            MECHS[pt.mech][1](pt)
     cases = None
     if isinstance(case, dict) and "t" in case:
         cases = [(D(case.get("x", "0")), D(case["t"]))]
@@ -1605,3 +1791,25 @@ def generate(ctx):
 
 
 
+
+
+def _witness_narrow_bounds(mech, params, types):
+    def w(ctx):
+        from ..core import Ctx
+        q = {k: (quantise(v, types.get(k)) if isinstance(v, float) else v) for k, v in params.items()}
+        pt = Point(mech, q, dict(types))
+        with typed(pt.types):
+            MECHS[mech][1](pt)
+        c = Ctx(PROPERTY, "quick", 0)
+        typed_direct(c, pt, 4242)
+        hits = [v for v in c.violations if v["signature"] == f"C02:{mech}:narrow-type-bounds"]
+        return bool(hits), (hits[0]["what"][:600] if hits else f"{mech} with bounds as {types}: calibration on the private side")
+    return w
+
+
+WITNESSES["C02:LaplaceBoundedDomain:narrow-type-bounds"] = _witness_narrow_bounds(
+    "LaplaceBoundedDomain", {"epsilon": 3.0, "delta": 0.0, "sensitivity": 0.7, "lower": 0.1, "upper": 0.9},
+    {"lower": "float32", "upper": "float32"})
+WITNESSES["C02:Snapping:narrow-type-bounds"] = _witness_narrow_bounds(
+    "Snapping", {"epsilon": 0.014293634332716465, "sensitivity": 1.4112046253789146e-10, "lower": 0.0, "upper": 504431.0},
+    {"lower": "float32", "upper": "float32"})
